@@ -160,6 +160,8 @@ def fault_sites(deck):
     if deck.get('imp_cards') and len(deck['imp_cards']) >= 2:
         sites.append(('imp-cards:unequal-length', 0))
         sites.append(('imp-cards:unequal-length', 1))
+        # one entry too many, written with as many words as the other cards
+        sites.append(('imp-cards:unequal-length', 2))
     for mi, m in enumerate(deck['materials']):
         pairs = [e for e in m['entries'] if isinstance(e, (list, tuple))]
         if len(pairs) >= 2:
@@ -311,7 +313,10 @@ def inject(deck, fclass, site):
         parts = sorted(deck['imp_cards'])
         card = deck['imp_cards'][parts[0]]
         vals = [mr.fnum(v) for v in card['values']]
-        card['tokens'] = vals[:-1] if site == 0 else vals + ['1']
+        if site == 2:
+            card['tokens'] = vals[:-1] + ['2r']
+        else:
+            card['tokens'] = vals[:-1] if site == 0 else vals + ['1']
         return deck, argv, 'imp:%s card with %d entries, others %d' % (
             parts[0], len(card['tokens']), len(vals))
     if fclass == 'material:mixed-signs':
